@@ -386,6 +386,10 @@ func runC12(c *rt.Ctx) {
 // c12Pair enumerates every single-preemption schedule of (A by client a, B by client b).
 func c12Pair(c *rt.Ctx, o *rt.Obs, A, B c12Op, fileLike bool) {
 	ctx := context.Background()
+	if A.Kind == "load" && B.Kind == "load" {
+		// two loads of the same value would legitimately leave it twice
+		B = c12Op{Kind: "load", Branch: "main", IDs: []int{12}, Vals: idsVals(12)}
+	}
 	// solo run of A to learn its number of storage operations
 	clients := []c12ClientSpec{{"a", []c12Op{A}}, {"b", []c12Op{B}}}
 	o.Desc(map[string]any{"file_semantics": fileLike, "A": A.String(), "B": B.String()})
